@@ -151,6 +151,7 @@ type FnCtx struct {
 	callN    map[string]int
 	recFns   map[string]bool
 	curStmtPos token.Pos
+	boxed    map[types.Object]bool // locals whose address is taken: they live in the heap
 	recInfos map[string]*recInfo
 	recStack []*recInfo
 	Pruned   []string // paths ended at an unsupported statement (contracts marked `partial`)
@@ -654,6 +655,24 @@ func (c *FnCtx) assumeInv(st *State, term string, t types.Type) {
 	// whatever a memory cell points to was allocated before the read
 	if st != nil && st.alloc != "" && st.alloc != "0" {
 		switch u := c.subst(t).Underlying().(type) {
+		case *types.Basic:
+			if u.Kind() == types.UnsafePointer {
+				c.facts = append(c.facts, implies(st.pc, app("<", term, st.alloc)))
+			}
+		case *types.Struct:
+			if !isOpaqueStruct(c.subst(t)) {
+				for i := 0; i < u.NumFields(); i++ {
+					f := u.Field(i)
+					switch fu := c.subst(f.Type()).Underlying().(type) {
+					case *types.Pointer, *types.Map, *types.Chan:
+						c.facts = append(c.facts, implies(st.pc, app("<", app(c.fieldAcc(t, f.Name()), term), st.alloc)))
+					case *types.Basic:
+						if fu.Kind() == types.UnsafePointer {
+							c.facts = append(c.facts, implies(st.pc, app("<", app(c.fieldAcc(t, f.Name()), term), st.alloc)))
+						}
+					}
+				}
+			}
 		case *types.Pointer, *types.Map, *types.Chan:
 			c.facts = append(c.facts, implies(st.pc, app("<", term, st.alloc)))
 		case *types.Slice:
